@@ -9,13 +9,16 @@ package main
 
 import (
 	"context"
+	"encoding/json"
 	"errors"
+	"fmt"
 	"io/fs"
 	"os"
 	"path/filepath"
 	"sort"
 	"strings"
 	"sync"
+	"time"
 
 	"github.com/caddyserver/certmagic"
 
@@ -61,7 +64,28 @@ func c01NewFileBackend() (*c01FileBackend, error) {
 	return &c01FileBackend{fs: &certmagic.FileStorage{Path: dir}, dir: dir, owner: map[string]string{}}, nil
 }
 
-func (b *c01FileBackend) Close()               { os.RemoveAll(b.dir) }
+func (b *c01FileBackend) Close() { os.RemoveAll(b.dir) }
+
+// leaveLockFile puts the lock file of a dead holder in place (what a crashed instance leaves behind).
+func (b *c01FileBackend) leaveLockFile(name, kind string) error {
+	p := certmagic.VerifLocksFileLockPath(b.fs, name)
+	if err := os.MkdirAll(filepath.Dir(p), 0o700); err != nil {
+		return err
+	}
+	var content []byte
+	switch kind {
+	case "empty":
+	case "stale":
+		ts := time.Now().Add(-time.Hour)
+		content, _ = json.Marshal(map[string]any{"created": ts, "updated": ts})
+	case "fresh":
+		ts := time.Now()
+		content, _ = json.Marshal(map[string]any{"created": ts, "updated": ts})
+	default:
+		return fmt.Errorf("unknown crash_lock kind %q", kind)
+	}
+	return os.WriteFile(p, content, 0o644)
+}
 func (b *c01FileBackend) GetLog() *doubles.Log { return &b.log }
 func (b *c01FileBackend) LockID(name string) string {
 	return filepath.Base(certmagic.VerifLocksFileLockPath(b.fs, name))
